@@ -325,11 +325,11 @@ def run(ctx):
             elif oracle(ks, inp, out, fold_numbers=False) is None:
                 cls = "sort-c-does-not-fold-number-like-text"
             oracle_bad.append(dict(base, law=v[0], pair=v[1], **{"class": cls}))
-        if kind in ("sort", "groups"):
-            stable_terms.append(term(1, ks, inp, out)); stable_meta.append((kind, ks, args, inp, out))
+        if kind in ("sort", "groups") and not v:
             sv = stable_oracle(ks, inp, out)
-            if sv and not v:
-                oracle_bad.append(dict(base, law="documentation: the sort is stable (records that compare equal keep their input order)", pair=sv,
+            if sv:
+                # repaired in /repo (4e85fa106, sort.SliceStable): a recurrence is a plain violation
+                oracle_bad.append(dict(base, law="the sort is stable: groups that compare equal keep their first-appearance order", pair=sv,
                                        **{"class": "sort-not-stable-for-equal-comparing-groups"}))
     for i in (0, 5, 700, 800):
         if i < len(meta):
@@ -343,8 +343,8 @@ def run(ctx):
         return
     with ctx.timed("coq_cases"):
         bad, err = coq_eval_mismatches(ctx, "C09", "Base.Record C09.Model C09.Harness", "case", "chk", terms, shard=len(terms) // PAR + 1)
-        sbad, serr = coq_eval_mismatches(ctx, "C09s", "Base.Record C09.Model C09.Harness", "case", "chk", stable_terms, shard=len(stable_terms) // PAR + 1)
-    ctx.cov["correspondence"] = {"cases": len(terms), "rejected_by_verified_checker": len(bad), "stability_cases": len(stable_terms), "stability_rejected": len(sbad),
+        sbad, serr = [], ""
+    ctx.cov["correspondence"] = {"cases": len(terms), "rejected_by_verified_checker": len(bad), 
                                  "rejected_examples": [{"argv": meta[i][2], "input": c11.show(meta[i][3]), "observed": c11.show(meta[i][4])} for i in bad[:4] if i >= 0]}
     if err or serr:
         ctx.violation({"broken": "correspondence-evaluation", "detail": (err + serr)[-2000:]}, found_input=False)
@@ -353,18 +353,12 @@ def run(ctx):
     for i in bad[:60]:
         kind, ks, args, inp, out = meta[i]
         base = {"argv": ["mlr"] + c11.IOFLAGS + args, "input": c11.show(inp), "observed": c11.show(out)}
-        v = oracle(ks, inp, out) if kind != "swr" else None
+        v = (oracle(ks, inp, out) or (kind in ("sort", "groups") and stable_oracle(ks, inp, out))) if kind != "swr" else None
         if v:
             continue        # reported below with its class
         reported += 1 if ctx.violation(dict(base, broken="C09.Harness.chk: the verified checker rejects mlr's output (python oracle accepts it)"), found_input=False) else 0
         if reported >= 3:
             break
-    for i in sbad[:60]:
-        kind, ks, args, inp, out = stable_meta[i]
-        if stable_oracle(ks, inp, out) or oracle(ks, inp, out):
-            continue
-        ctx.violation({"broken": "C09.Harness check_stable rejects mlr's output (python oracle accepts it)", "argv": args, "input": c11.show(inp), "observed": c11.show(out)}, found_input=False)
-        break
     seen = {}
     for v in oracle_bad:
         key = (v.get("class"), v.get("law") if v.get("class") == "other" else "")
@@ -405,7 +399,7 @@ def fixed_probes(ctx, oracle_bad):
             oracle_bad.append({"argv": ["mlr"] + c11.IOFLAGS + args, "input": lines, "observed": c11.show(out), "expected": want, "law": law, "class": cls})
     probe(["sort", "-nf", "x"], ["x:0x1;i:0", "x:10;i:1", "x:3;i:2", "x:1.0;i:3", "x:1e0;i:4", "x:12;i:5", "x:5;i:6", "x:11;i:7", "x:1;i:8", "x:8;i:9", "x:4;i:10", "x:2.0;i:11", "x:2;i:12"],
           ["x:0x1;i:0", "x:1.0;i:3", "x:1e0;i:4", "x:1;i:8", "x:2.0;i:11", "x:2;i:12", "x:3;i:2", "x:4;i:10", "x:5;i:6", "x:8;i:9", "x:10;i:1", "x:11;i:7", "x:12;i:5"],
-          "documentation: the sort is stable (records that compare equal keep their input order)", "sort-not-stable-for-equal-comparing-groups")
+          "the sort is stable: groups that compare equal keep their first-appearance order", "sort-not-stable-for-equal-comparing-groups")
     probe(["sort", "-c", "y"], ["y:1E2", "y:1e0"], ["y:1e0", "y:1E2"], "ordered by the keys in precedence order (case-folded)", "sort-c-does-not-fold-number-like-text")
     probe(["sort", "-f", "a", "-f", "b"], ["a:x,y;b:z;i:0", "a:x;b:zz;i:1", "a:x;b:y,z;i:2"], ["a:x;b:y,z;i:2", "a:x;b:zz;i:1", "a:x,y;b:z;i:0"],
           "ordered by the keys in precedence order", "grouping-key-comma-collision")
